@@ -357,7 +357,8 @@ class Inliner:
         mode 'assign' / 'expr': returns must be in tail position of if/else chains; guard clauses are folded.
         """
         if mode == "return":
-            return stmts
+            # a callee that can fall off its end returns None - and so does the caller at this point
+            return list(stmts) if _ends(stmts) else list(stmts) + [ast.copy_location(ast.Return(value=ast.Constant(value=None)), at)]
 
         def tail(block: List[ast.stmt]) -> List[ast.stmt]:
             out: List[ast.stmt] = []
